@@ -37,6 +37,7 @@ type AttrSpec struct {
 type AsrtSpec struct {
 	ID           string     `json:"id"`
 	IssueMs      int64      `json:"issue_ms"`
+	IssueText    string     `json:"issue_text,omitempty"` // non-empty: IssueInstant is written as exactly this text (instants a Duration from t0 cannot express)
 	Issuer       string     `json:"issuer"`
 	NoSubject    bool       `json:"no_subject,omitempty"`
 	NoNameID     bool       `json:"no_nameid,omitempty"`
@@ -60,7 +61,8 @@ type AsrtSpec struct {
 type RespSpec struct {
 	ID           string     `json:"id"`
 	IssueMs      int64      `json:"issue_ms"`
-	Issuer       *string    `json:"issuer"` // nil: absent
+	IssueText    string     `json:"issue_text,omitempty"` // non-empty: IssueInstant is written as exactly this text (instants a Duration from t0 cannot express)
+	Issuer       *string    `json:"issuer"`               // nil: absent
 	Destination  string     `json:"destination"`
 	InResponseTo string     `json:"irt"`
 	Status       string     `json:"status"`
@@ -249,6 +251,9 @@ func buildAssertionEl(a *AsrtSpec, t0 time.Time, form int, method string) *etree
 			c.CreateAttr("NotOnOrAfter", a.NOAText)
 		}
 	}
+	if a.IssueText != "" {
+		el.CreateAttr("IssueInstant", a.IssueText)
+	}
 	ci := 0
 	for _, sc := range el.FindElements("./Subject/SubjectConfirmation") {
 		if ci < len(a.Confs) && a.Confs[ci].NOAText != "" {
@@ -300,6 +305,9 @@ func BuildResponseEl(s *RespSpec, t0 time.Time) *etree.Element {
 	}
 	el := r.Element()
 	rewriteTimes(el, s.TimeForm)
+	if s.IssueText != "" {
+		el.CreateAttr("IssueInstant", s.IssueText)
+	}
 	for i := range s.Assertions {
 		el.AddChild(buildAssertionEl(&s.Assertions[i], t0, s.TimeForm, s.SigMethod))
 	}
